@@ -201,9 +201,18 @@ Proof. intros E. induction l as [|h t IH]; cbn [map existsb]; auto. now rewrite 
 
 Definition cf_view (st : state) := (killed st, box st, rds st).
 
+(* can_fetch as a function of what it reads: killed, the box, the waiting/drive fields *)
+Definition wb (b : list (nat * msg)) (r : reader) : bool :=
+  match r_waiting r with Some x => has_msg b x | None => false end.
+Definition cf (k : bool) (b : list (nat * msg)) (l : list reader) : bool :=
+  if k then true else if existsb (wb b) l then false else existsb drives l.
+
+Lemma can_fetch_cf st : can_fetch st = cf (killed st) (box st) (rds st).
+Proof. reflexivity. Qed.
+
 Lemma can_fetch_view st st' :
   killed st' = killed st -> box st' = box st -> rds st' = rds st -> can_fetch st' = can_fetch st.
-Proof. unfold can_fetch. intros -> -> ->. reflexivity. Qed.
+Proof. rewrite !can_fetch_cf. intros -> -> ->. reflexivity. Qed.
 
 Lemma can_fetch_upd st st' i r r' :
   killed st' = killed st -> box st' = box st ->
@@ -211,24 +220,24 @@ Lemma can_fetch_upd st st' i r r' :
   r_waiting r' = r_waiting r -> r_drive r' = r_drive r ->
   can_fetch st' = can_fetch st.
 Proof.
-  unfold can_fetch. intros -> -> Hi -> Hw Hd.
+  rewrite !can_fetch_cf. intros -> -> Hi -> Hw Hd. unfold cf.
   destruct (killed st); auto.
-  assert (E1 : forall lo, existsb (waits_le lo) (upd i r' (rds st)) = existsb (waits_le lo) (rds st)).
-  { intros lo. eapply existsb_upd_same; eauto. unfold waits_le. now rewrite Hw. }
+  assert (E1 : existsb (wb (box st)) (upd i r' (rds st)) = existsb (wb (box st)) (rds st)).
+  { eapply existsb_upd_same; eauto. unfold wb. now rewrite Hw. }
   assert (E2 : existsb drives (upd i r' (rds st)) = existsb drives (rds st)).
   { eapply existsb_upd_same; eauto. unfold drives. now rewrite Hw, Hd. }
-  destruct (box st) as [|[lo m] t]; rewrite ?E1, ?E2; reflexivity.
+  rewrite E1, E2. reflexivity.
 Qed.
 
 Lemma can_fetch_wake_readers st : can_fetch (wake_readers st) = can_fetch st.
 Proof.
-  unfold can_fetch, wake_readers. simp_st. destruct (killed st); auto.
-  assert (E1 : forall lo, existsb (waits_le lo) (map (fun r => rd_set_woken r true) (rds st))
-                          = existsb (waits_le lo) (rds st)).
-  { intros lo. apply existsb_map_same. reflexivity. }
+  rewrite !can_fetch_cf. unfold wake_readers, cf. simp_st. destruct (killed st); auto.
+  assert (E1 : existsb (wb (box st)) (map (fun r => rd_set_woken r true) (rds st))
+               = existsb (wb (box st)) (rds st)).
+  { apply existsb_map_same. reflexivity. }
   assert (E2 : existsb drives (map (fun r => rd_set_woken r true) (rds st)) = existsb drives (rds st)).
   { apply existsb_map_same. reflexivity. }
-  destruct (box st) as [|[lo m] t]; rewrite ?E1, ?E2; reflexivity.
+  rewrite E1, E2. reflexivity.
 Qed.
 
 (* ---------- deliver ---------- *)
